@@ -155,10 +155,11 @@ PROPS["C04"] = dict(
     title="Merkle vector decommitment is complete and binding for all shapes",
     level="model_checking",
     obligations=[
-        _c04("bind", 1, 1, Q), _c04("bind", 2, 1, Q), _c04("complete", 2, 1, Q), _c04("complete", 2, 2, Q), _c04c(2, Q),
-        _c04("bind", 2, 1, Q, BLAKE, ".blake2s_248"), _c04("complete", 2, 1, Q, BLAKE, ".blake2s_248"),
+        _c04("bind", 1, 1, Q), _c04("bind", 2, 1, Q), _c04("complete", 2, 1, Q), _c04("complete", 2, 2, Q), _c04c(1, Q),
+        _c04("bind", 2, 1, Q, BLAKE, ".blake2s_248"),
+        _c04c(2, T), _c04("complete", 2, 1, T, BLAKE, ".blake2s_248"),
         _c04("bind", 2, 2, T), _c04("bind", 2, 2, T, BLAKE, ".blake2s_248"), _c04("complete", 2, 2, T, BLAKE, ".blake2s_248"),
-        _c04("bind", 3, 1, T), _c04("bind", 3, 2, T), _c04("bind", 3, 3, T), _c04("complete", 3, 2, T), _c04("complete", 3, 3, T), _c04c(3, T), _c04c(1, T),
+        _c04("bind", 3, 1, T), _c04("bind", 3, 2, T), _c04("bind", 3, 3, T), _c04("complete", 3, 2, T), _c04("complete", 3, 3, T), _c04c(3, T),
         _c04("bind", 2, 2, T, K248, ".keccak_248"), _c04("complete", 2, 2, T, K248, ".keccak_248"),
         _c04("bind", 2, 2, T, B160, ".blake2s_160"), _c04("complete", 2, 2, T, B160, ".blake2s_160"),
     ],
@@ -178,7 +179,7 @@ PROPS["C05"] = dict(
         _c05("C05.length.1", "c05_length_1", "2 columns, 1 query, 1 cell", "cell count != columns x queries is rejected", depth=1),
         _c05("C05.length.3", "c05_length_3", "2 columns, 1 query, 3 cells", "cell count != columns x queries is rejected", depth=1),
         _c05("C05.length.2", "c05_length_2", "2 columns, 1 query, 2 cells (accepted)", "exact cell count accepted", tier=T, depth=1),
-        _c05("C05.delegate.f2", "c05_delegate_f2", "2 columns x 2 rows (vector height 1), both rows queried, cells any felts, friendly-layer count 2 (row and node hash Poseidon), the 24 permutations of the 4 cells (symbolic)", "accepted iff the cells are the committed ones in their rows and columns", depth=3),
+        _c05("C05.delegate.f2", "c05_delegate_f2", "2 columns x 2 rows (vector height 1), both rows queried, cells any felts, friendly-layer count 2 (row and node hash Poseidon), the 24 permutations of the 4 cells (symbolic)", "accepted iff the cells are the committed ones in their rows and columns", tier=T, depth=3, mem=24, timeout=3600),
         _c05("C05.delegate.f1", "c05_delegate_f1", "as C05.delegate.f2 with friendly-layer count 1 (row hash masked, node hash Poseidon): the depth rule height+1", "accepted iff cells unchanged", tier=T, depth=3, mem=44, timeout=7200),
         _c05("C05.delegate.f0", "c05_delegate_f0", "as C05.delegate.f2 with friendly-layer count 0 (all masked)", "accepted iff cells unchanged", tier=T, depth=3, mem=44, timeout=7200),
         _c05("C05.row.cols4.friendly", "c05_row_4_f1", "4 columns, 1 row, Poseidon", "row hash over 4 cells", tier=T, depth=1),
